@@ -318,11 +318,15 @@ def check_scale(rec: core.Recorder, *, op: str, pre: dict, post: dict, factor, d
     if rd.kind in "iu":
         okf, oke = np.array_equal(f1, ef), np.array_equal(e1, ee)
     else:
+        # the factor's own element type does not enter: c is a number, c*c its square (a float16 / narrow integer scalar squared
+        # in its own type would scale the errors by a rounded or wrapped c*c)
         eps = max(_eps(rd), _eps(pre["dtype"]), 1.2e-16)
-        if isinstance(factor, np.floating):
-            eps = max(eps, float(np.finfo(type(factor)).eps))
-        okf = bool(np.all(np.abs(f1 - ef) <= 4 * eps * np.abs(ef) + 1e-300))
-        oke = bool(np.all(np.abs(e1 - ee) <= 8 * eps * np.abs(ee) + 1e-300))
+        top = float(np.finfo(rd).max)
+        with np.errstate(all="ignore"):
+            # beyond the largest number of a narrow float type the result reads inf: that is the type's range, not the scaling
+            ovf_f, ovf_e = np.abs(ef) > top * (1 - 4 * eps), np.abs(ee) > top * (1 - 8 * eps)
+            okf = bool(np.all(np.where(ovf_f, np.isinf(f1) | (np.abs(f1 - ef) <= 4 * eps * np.abs(ef)), np.abs(f1 - ef) <= 4 * eps * np.abs(ef) + 1e-300)))
+            oke = bool(np.all(np.where(ovf_e, np.isinf(e1) | (np.abs(e1 - ee) <= 8 * eps * np.abs(ee)), np.abs(e1 - ee) <= 8 * eps * np.abs(ee) + 1e-300)))
     if not okf:
         i = int(np.argmax(np.abs(f1 - ef).ravel()))
         fail("contents are not the operand's contents " + ("divided" if divide else "multiplied") + " by the scalar", ["frequencies"],
